@@ -74,7 +74,21 @@ pub fn run(ex: &mut Exec, nthreads: usize, fires: usize, seed: u64) {
             s.spawn(move || {
                 let mut rng = Rng::new(seed ^ ((t as u64 + 1) << 32));
                 for _ in 0..fires {
+                    // sometimes aim at the window in which the owner is inside a poll
+                    if rng.chance(35) {
+                        let mut spins = 0u32;
+                        while IN_POLL_SINCE.load(Ordering::SeqCst) == 0 && spins < 20_000 {
+                            std::hint::spin_loop();
+                            spins += 1;
+                        }
+                        for _ in 0..rng.below(300) {
+                            std::hint::spin_loop();
+                        }
+                    }
                     fire_one(&mut rng);
+                    if rng.chance(15) {
+                        fire_one(&mut rng); // bursts
+                    }
                     match rng.below(4) {
                         0 => std::thread::yield_now(),
                         1 => std::thread::sleep(Duration::from_micros(rng.below(200))),
